@@ -4,7 +4,7 @@ from common import *
 import build, certs, engine, probes, gen, cap as capmod
 import check_engine as ce
 
-CERT_NAMES = ['dfa_ok', 'sim_ok', 'exact_ok', 'wf_graph', 'prompt_ok']
+CERT_NAMES = ['dfa_ok', 'sim_ok', 'exact_ok', 'wf_graph', 'prompt_ok', 'utf8_ok', 'utf8_strict_ok']
 
 
 def framework(res, theorems):
@@ -619,6 +619,208 @@ def check_C13(tier):
     res.trusted += ['Coq kernel', 'extraction + driver', 'harness + corpus callbacks (corpus/engine/callbacks_plain.rs) and the behaviour-code table lib/engine.py CB_CODES']
     res.assumptions += ASSUME_ENGINE + ['callbacks are modelled as an oracle (decision + bump amount) that is a pure function of the match; the documented table is Engine/Run.v `table` / Runtime/Callbacks.v `documented`']
     return res.finish('./vcheck C13 --tier ' + tier)
+
+
+def invalid_utf8_witness(c):
+    """Shortest byte string (from the DFA start) that is matched (or can be extended to a match)
+    although it is not valid UTF-8 — the failing input for a str-mode definition that should have been rejected."""
+    from collections import deque
+    dfa = capmod.Dfa(c)
+    rank = dfa.live_ranks()
+    start = (dfa.start, capmod.U0)
+    prev = {start: None}
+    dq = deque([start])
+    while dq:
+        q, u = dq.popleft()
+        for b in range(256):
+            t = dfa.step(q, b)
+            u2 = capmod.ustep(u, b)
+            if t == 0:
+                continue
+            if u2 == capmod.UREJ:
+                if t in rank or True:
+                    # rebuild path, then extend to a match
+                    path = [b]
+                    cur = (q, u)
+                    while prev[cur] is not None:
+                        cur, bb = prev[cur]; path.append(bb)
+                    pre = bytes(reversed(path))
+                    # extend along live ranks to a match state
+                    x = t; ext = b''
+                    for _ in range(64):
+                        if any(dfa.match(dfa.step(x, uu)) for uu in range(257)):
+                            break
+                        nxt = [(bb, dfa.step(x, bb)) for bb in range(256) if dfa.step(x, bb) in rank and rank[dfa.step(x, bb)] < rank.get(x, 1 << 30)]
+                        if not nxt:
+                            break
+                        ext += bytes([nxt[0][0]]); x = nxt[0][1]
+                    return pre + ext
+            elif (t, u2) not in prev:
+                prev[(t, u2)] = ((q, u), b); dq.append((t, u2))
+    # a match that ends inside a character
+    for (q, u), _ in list(prev.items()):
+        if u != capmod.U0:
+            for b in range(256):
+                if capmod.ustep(u, b) != capmod.UREJ and dfa.match(dfa.step(q, b)):
+                    path = []
+                    cur = (q, u)
+                    while prev[cur] is not None:
+                        cur, bb = prev[cur]; path.append(bb)
+                    return bytes(reversed(path))
+    return None
+
+
+def utf8_cert_stage(res, tier, prop, extra_files=()):
+    """UTF-8 certificates on every accepted str-mode definition and on every subpattern of an accepted
+    str-mode definition; byte-mode definitions are classified. Returns (failing str defs, drv, stats)."""
+    drv = build.extraction_build()
+    repo_caps, rand_caps = ce.corpora(tier, res)
+    extra = build.capture_files(list(extra_files), prop + '-extra') if extra_files else []
+    allcaps = [c for c in list(repo_caps) + list(rand_caps) + list(extra) if ce.usable(c)]
+    ext = certs.extracted_certs(drv, allcaps)
+    failing = []
+    nstr = 0
+    for c in allcaps:
+        r = ext.get(c.id or c.name)
+        if c.utf8:
+            nstr += 1
+            ok = bool(r and r[0] and r[1] and r[2] and r[5] and r[6])
+            res.oblige(ok)
+            if not ok:
+                failing.append((c, [n for n, v in zip(CERT_NAMES, r or []) if not v]))
+    res.count('str_mode_definitions_certified', nstr)
+    res.count('byte_mode_definitions_seen', len(allcaps) - nstr)
+    return failing, drv, allcaps, ext
+
+
+def check_C04(tier):
+    res = Result('C04', tier)
+    framework(res, ['C04_match_ends_on_boundary', 'C04_bnd_is_char_boundary', 'C04_spans_on_boundaries', 'C04_fb_str_boundary'])
+    rej_file = os.path.join(VERIF, 'corpus', 'front', 'utf8_reject.rs')
+    failing, drv, allcaps, ext = utf8_cert_stage(res, tier, 'C04', [rej_file])
+    for c, names in failing[:6]:
+        w = invalid_utf8_witness(c)
+        replay = dict(definition=c.source, definition_id=c.id, file=c.file, failed_certificates=names)
+        if w is not None and not probes.is_utf8(w):
+            replay.update(input_hex=w.hex(), input=repr(w))
+            res.violation(None, 'str-mode definition %s is accepted although its patterns match %r, which is not valid UTF-8' % (c.id, w), replay)
+        else:
+            replay['no_longer_checks'] = 'certificate(s) %s of C04_spans_on_boundaries for %s' % (names, c.id)
+            res.violation(None, 'UTF-8 certificates %s fail for accepted str-mode definition %s' % (names, c.id), replay, found_input=False)
+    # the curated must-reject definitions (patterns / subpatterns matching invalid UTF-8 in str mode)
+    rejcaps = build.capture_files([rej_file], 'C04-extra')
+    for c in rejcaps:
+        ok = (c.panic is None and not c.accepted)
+        res.oblige(ok)
+        if not ok:
+            res.violation(None, 'str-mode definition %s (a pattern or subpattern matches invalid UTF-8) is accepted' % c.id,
+                          dict(definition=c.source, definition_id=c.id), found_input=True)
+    # subpatterns of accepted str-mode definitions: each alone must only match valid UTF-8 (independent DFA)
+    files = build.repo_corpus_files() + [rej_file] + [os.path.join(VERIF, 'corpus', 'engine', f) for f in sorted(os.listdir(os.path.join(VERIF, 'corpus', 'engine')))]
+    subcaps = build.capture_subpatterns(files, 'C04')
+    accepted_ids = set((c.id) for c in build.capture_files(files, 'C04-subowners') if c.accepted and c.utf8)
+    jobs = []; owners = []
+    for i, sc in enumerate(subcaps):
+        owner = sc.id.split('__sub')[0]
+        if owner not in accepted_ids or not sc.dfa or sc.dfa.get('start') is None:
+            continue
+        jobs.append(engine.dfa_header(sc) + ['CU s%d' % i]); owners.append((i, sc, owner))
+    out = engine.parse_model_output(engine.run_modeldrv(drv, jobs)) if jobs else {}
+    for i, sc, owner in owners:
+        r = out.get('CU:s%d' % i)
+        ok = bool(r and all(r))
+        res.oblige(ok)
+        res.count('subpatterns_certified')
+        if not ok:
+            w = invalid_utf8_witness(sc)
+            res.violation(None, 'subpattern %s of accepted str-mode definition %s can match %r (not valid UTF-8)' % (sc.name, owner, w),
+                          dict(subpattern=sc.source, owner=owner, input_hex=w.hex() if w else None), found_input=w is not None)
+    # K2 on valid UTF-8 probes: spans/slices/remainder valid; forbid_unsafe build must not panic
+    fss = ['tc', 'tcsafe']
+    sets = ce.compiled_sets(tier, fss)
+    mism = ce.run_k2(res, sets, fss, tier, modes=(0,), drv=drv)
+    enums_by_label = {label: enums for label, h, enums in sets}
+    n = 0
+    for label, fs, en, mode, p, tags, raw, mdl in mism:
+        if not (tags & {'panic', 'slice'}):
+            continue
+        n += 1
+        if n <= 5:
+            res.violation(None, '%s/%s on %r: %s' % (en, fs, p, ','.join(sorted(tags))),
+                          dict(definition=ce.enum_source(enums_by_label[label], en), enum=en, featureset=fs, input_hex=p.hex(), input=repr(p), observed=raw))
+    res.oblige(n == 0)
+    res.cov['rule'] = ('utf8_ok + utf8_strict_ok (complete exploration of DFA x UTF-8 automaton through a validated hint) on every accepted str-mode definition of the corpora and, independently compiled, on every subpattern of an accepted str-mode definition; '
+                       'curated must-reject definitions; K2: every str probe (valid UTF-8 incl. 2/3/4-byte characters) checks slice()/remainder() against the source and the forbid_unsafe build for panics')
+    res.assumptions += ASSUME_ENGINE + ['subpattern DFAs are built by tools/capture/src/subpat.rs with the same regex-automata configuration as Graph::new, inlining earlier subpatterns textually']
+    return res.finish('./vcheck C04 --tier ' + tier)
+
+
+def check_C12(tier):
+    res = Result('C12', tier)
+    framework(res, ['C12_next_fb_independent', 'C12_inside_char_error', 'C04_match_ends_on_boundary'])
+    rej_file = os.path.join(VERIF, 'corpus', 'front', 'utf8_reject.rs')
+    failing, drv, allcaps, ext = utf8_cert_stage(res, tier, 'C12', [rej_file])
+    for c, names in failing[:6]:
+        res.violation(None, 'UTF-8 certificates %s fail for accepted str-mode definition %s' % (names, c.id),
+                      dict(definition=c.source, definition_id=c.id, no_longer_checks='certificates %s (hypotheses of C12_inside_char_error) for %s' % (names, c.id)), found_input=False)
+    # acceptance: a definition with a leaf that is not UTF-8-only must be rejected in str mode and accepted with utf8 = false
+    rejcaps = build.capture_files([rej_file], 'C12-extra')
+    d = cache_dir('gen', 'c12twin')
+    twin = os.path.join(d, 'utf8_reject_b.rs')
+    open(twin, 'w').write(open(rej_file).read().replace('#[derive(Logos)]', '#[derive(Logos)]\n#[logos(utf8 = false)]'))
+    twincaps = {c.name: c for c in build.capture_files([twin], 'C12-twin')}
+    for c in rejcaps:
+        t = twincaps.get(c.name)
+        ok = (not c.accepted) and t is not None and t.accepted
+        res.oblige(ok)
+        res.count('mode_acceptance_pairs')
+        if not ok:
+            res.violation(None, '%s: str mode %s, utf8 = false %s (expected rejected / accepted)' % (c.name, c.outcome, t.outcome if t else None),
+                          dict(definition=c.source), found_input=True)
+    # the graph captured for a definition and for its `utf8 = false` twin are equal; the compiled twins agree
+    fss = ['tc']
+    sets = ce.compiled_sets(tier, fss)
+    rng = random.Random(seed() + 12)
+    nbad = 0
+    for label, h, enums in sets:
+        exe, caps = h['tc']
+        pairs = [(en, en + 'B') for en in sorted(caps) if en + 'B' in caps and ce.usable(caps[en]) and ce.usable(caps[en + 'B'])]
+        runs = []
+        meta = []
+        for a, b in pairs:
+            ca, cb = caps[a], caps[b]
+            same = (ca.graph == cb.graph and ca.dfa == cb.dfa)
+            res.oblige(same); res.count('mode_twin_graphs_compared')
+            if not same:
+                res.violation(None, 'graph of %s differs between str mode and utf8 = false' % a, dict(definition=ce.enum_source(enums, a), no_longer_checks='K1 graph equality across modes for %s' % a), found_input=False)
+            if None in engine.behaviour_codes(ca):
+                continue
+            ps = [p for p in ce.make_probes(ca, rng, tier) if probes.is_utf8(p)]
+            for i, p in enumerate(ps):
+                runs.append(('%s.%d.s' % (a, i), a, 0, p)); runs.append(('%s.%d.b' % (a, i), b, 0, p))
+                meta.append((a, i, p))
+        real = engine.run_real(exe, runs)
+        for a, i, p in meta:
+            rs, rb = real['%s.%d.s' % (a, i)], real['%s.%d.b' % (a, i)]
+            res.count('mode_twin_runs')
+            oks = [x for x in rs['items'] if x[0]]; okb = [x for x in rb['items'] if x[0]]
+            cov = lambda r: set(j for x in r['items'] if not x[0] for j in range(x[2], x[3]))
+            bad = None
+            if rs['panic'] or rb['panic']:
+                bad = 'panic'
+            elif oks != okb:
+                bad = 'Ok tokens differ: str %r bytes %r' % (oks[:4], okb[:4])
+            elif cov(rs) != cov(rb):
+                bad = 'bytes covered by errors differ: str %r bytes %r' % (sorted(cov(rs)), sorted(cov(rb)))
+            if bad:
+                nbad += 1
+                if nbad <= 5:
+                    res.violation(None, '%s on %r: %s' % (a, p, bad), dict(definition=ce.enum_source(enums, a), input_hex=p.hex(), input=repr(p), str_mode=rs['raw'][:300], byte_mode=rb['raw'][:300]))
+    res.oblige(nbad == 0)
+    res.cov['rule'] = ('every dual definition compiled in str mode and with utf8 = false: captured graphs equal; both run on every valid-UTF-8 probe: same Ok tokens and spans, same set of bytes covered by errors; '
+                       'UTF-8 certificates incl. strictness on every accepted str-mode definition; acceptance pairs for patterns matching invalid UTF-8')
+    res.assumptions += ASSUME_ENGINE + ['stream-level agreement follows from the two per-call theorems by iteration (informal), and is what K2 compares']
+    return res.finish('./vcheck C12 --tier ' + tier)
 
 
 def setup():
